@@ -9,14 +9,17 @@ import (
 	rt "github.com/taskctl/taskctl/internal/verifrt"
 )
 
-// Files: 0 /p/a.yaml (root), 1 /p/b.yaml, 2 /p/sub/c.yaml, 3 /p/sub/d.yaml; directory /p/sub.
-var c17Files = []string{"/p/a.yaml", "/p/b.yaml", "/p/sub/c.yaml", "/p/sub/d.yaml"}
-var c17Short = []string{"a", "b", "c", "d"}
+// Files: 0 /p/a.yaml (root), 1 /p/sub/c.yaml, 2 /p/sub/d.yaml, 3 /p/b.yaml; directory /p/sub (so that
+// already with three files the directory holds two, one of which can import the other).
+var c17Files = []string{"/p/a.yaml", "/p/sub/c.yaml", "/p/sub/d.yaml", "/p/b.yaml"}
+var c17Short = []string{"a", "c", "d", "b"}
+
+func c17InSub(k int) bool { return k == 1 || k == 2 }
 var c17Digits = []string{"0", "1", "2"}
 
 // import texts as written inside a file of /p and of /p/sub: target k = file k, 4 = the directory, 5 = a missing file
-var c17FromTop = []string{"a.yaml", "b.yaml", "sub/c.yaml", "sub/d.yaml", "sub", "missing.yaml"}
-var c17FromSub = []string{"../a.yaml", "../b.yaml", "c.yaml", "d.yaml", "../sub", "missing.yaml"}
+var c17FromTop = []string{"a.yaml", "sub/c.yaml", "sub/d.yaml", "b.yaml", "sub", "missing.yaml"}
+var c17FromSub = []string{"../a.yaml", "c.yaml", "d.yaml", "../b.yaml", "../sub", "missing.yaml"}
 
 type c17File struct {
 	exists, parses bool
@@ -86,7 +89,7 @@ func c17Glob(pattern string) ([]string, error) {
 		return nil, nil
 	}
 	var out []string
-	for k := 2; k < c17N; k++ {
+	for k := 1; k <= 2 && k < c17N; k++ {
 		if c17[k].exists {
 			out = append(out, c17Files[k])
 		}
@@ -139,7 +142,7 @@ func VerifC17(n, part int) {
 		part /= 3
 		rt.Observe("nimports."+c17Short[k], cnt)
 		texts := c17FromTop
-		if k >= 2 {
+		if c17InSub(k) {
 			texts = c17FromSub
 		}
 		var list []interface{}
@@ -193,7 +196,7 @@ func VerifC17(n, part int) {
 				case t < n:
 					reach[t] = true
 				case t == 4:
-					for j := 2; j < n; j++ {
+					for j := 1; j <= 2 && j < n; j++ {
 						if c17[j].exists {
 							reach[j] = true
 						}
